@@ -20,6 +20,8 @@ def templates():
         ("fornest", [for_(Iv, I(1), I(2)), for_(var("J"), I(1), I(2)), next_(var("J"), Iv)]),
         ("while", [let(var("W"), I(2)), while_(bin_("gt", var("W"), I(0))), let(var("W"), bin_("sub", var("W"), I(1))), wend()]),
         ("gosub", [gosub(900)]),
+        ("subret", [gosub(920)]),          # a subroutine left from inside its own FOR loop
+        ("subretw", [gosub(930)]),         # ... from inside its own WHILE loop
         ("ongosub1", [ongosub(I(1), 900, 910)]),
         ("ongosub2", [ongosub(I(2), 900, 910)]),
         ("ongosub0", [ongosub(I(0), 900, 910)]),
@@ -46,7 +48,10 @@ def templates():
     ]
 
 def tail():
-    return {900: [let(var("Z"), I(1)), ret()], 910: [ret()], 950: [data(I(3), Str("D"))]}
+    return {900: [let(var("Z"), I(1)), ret()], 910: [ret()],
+            920: [for_(var("SI"), I(1), I(3)), if_(bin_("eq", var("SI"), I(2)), [ret()])], 921: [next_(var("SI"))], 922: [ret()],
+            930: [let(var("SW"), I(1)), while_(var("SW")), let(var("SW"), I(0)), ret()], 931: [wend()], 932: [ret()],
+            950: [data(I(3), Str("D"))]}
 
 def leak_sessions(n_iter, prefix="C18"):
     out = []
